@@ -55,14 +55,21 @@ def build(cls, D, L, N, dt, seed, flag=False):
         return S.HyperDiffusion(D, L, N, dt, hyper_diffusivity=0.003, diffuse_on_diffuse=flag)
     if cls == "GeneralLinear":
         return G.GeneralLinearStepper(D, L, N, dt, linear_coefficients=(-0.1, 0.4, 0.02, -0.3, -0.001))
+    if cls == "GeneralLinear(odd)":         # purely odd orders: imaginary symbol, exactly unitary
+        return G.GeneralLinearStepper(D, L, N, dt, linear_coefficients=(0.0, 0.7, 0.0, -1.0, 0.0, 0.05) if flag else (0.0, 0.0, 0.0, -1.0))
+    if cls == "NormalizedLinear(odd)":
+        return G.NormalizedLinearStepper(D, N, normalized_linear_coefficients=(0.0, -0.3 * dt, 0.0, -dt / 7.0))
+    if cls == "DifficultyLinear(odd)":
+        return G.DifficultyLinearStepper(D, N, linear_difficulties=(0.0, 0.4 * min(dt, 50.0), 0.0, -0.1 * min(dt, 1e4)))
     if cls == "Wave":
         return S.Wave(D, L, N, dt, speed_of_sound=1.4)
     raise KeyError(cls)
 
 
-CLASSES = ["Advection", "Diffusion(scalar)", "Diffusion(vector)", "Diffusion(matrix)", "AdvectionDiffusion", "Dispersion", "HyperDiffusion", "GeneralLinear"]
+CLASSES = ["Advection", "Diffusion(scalar)", "Diffusion(vector)", "Diffusion(matrix)", "AdvectionDiffusion", "Dispersion", "HyperDiffusion", "GeneralLinear",
+           "GeneralLinear(odd)", "NormalizedLinear(odd)", "DifficultyLinear(odd)"]
 DISSIPATIVE = {"Diffusion(scalar)", "Diffusion(vector)", "Diffusion(matrix)", "AdvectionDiffusion", "HyperDiffusion"}
-UNITARY = {"Advection", "Dispersion"}
+UNITARY = {"Advection", "Dispersion", "GeneralLinear(odd)", "NormalizedLinear(odd)", "DifficultyLinear(odd)"}
 
 
 def l2(u):
@@ -86,10 +93,10 @@ def t_no_growth(cls, D, N, L, dt, seed, flag=False, steps=1):
     return ok, f"{cls} D={D} N={N} L={L} dt={dt}: norm ratio {worst:.15f} > 1"
 
 
-def t_mode_decay(cls, D, N, L, dt, k, seed):
+def t_mode_decay(cls, D, N, L, dt, k, seed, flag=False):
     """every non-constant single mode (incl. negative leading-axis wavenumbers) strictly shrinks under the diffusive classes"""
     ex, jnp = _ex()
-    s = build(cls, D, L, N, dt, seed)
+    s = build(cls, D, L, N, dt, seed, flag)
     x = np.asarray(ex.make_grid(D, L, N))
     u = np.cos(sum(2 * np.pi * k[c] * x[c] / L for c in range(D)) + 0.3)[None]
     r = l2(s(jnp.asarray(u))) / l2(u)
@@ -136,7 +143,7 @@ def witness(ctx):
     dn = [(1, 9), (1, 10), (2, 6), (2, 7), (3, 4)] if not deep else [(1, 9), (1, 10), (1, 31), (2, 6), (2, 7), (2, 12), (3, 4), (3, 5)]
     for D, N in dn:
         for cls in CLASSES:
-            for flag in ((False, True) if cls in ("Dispersion", "HyperDiffusion") else (False,)):
+            for flag in ((False, True) if cls in ("Dispersion", "HyperDiffusion", "GeneralLinear(odd)") else (False,)):
                 for (L, dt) in ([(2.0, 0.1), (7.0, 1e6)] if not deep else [(2.0, 1e-3), (2.0, 0.1), (7.0, 1e6), (0.5, 30.0), (100.0, 5.0)]):
                     ctx.check("no_growth", dict(cls=cls, D=D, N=N, L=L, dt=dt, seed=ctx.seed, flag=flag, steps=1 if not deep else 4))
             if cls in UNITARY:
@@ -145,8 +152,15 @@ def witness(ctx):
         ks = [k for k in itertools.product(range(-half, half + 1), repeat=D) if any(k)]
         if len(ks) > (24 if not deep else 200):
             ks = [ks[i] for i in ctx.rng.choice(len(ks), 24 if not deep else 200, replace=False)]
+        # mixed-sign wavevectors are always included (anti-diagonal, and components that cancel in sum k_i)
+        fixed = [] if D == 1 else [k for k in ([(h, -h) + (0,) * (D - 2) for h in range(1, half + 1)] + [(-h, h) + (0,) * (D - 2) for h in range(1, half + 1)]
+                                               + ([(-2, 1, 1), (1, -2, 1), (-1, -1, 2), (-1, 1, 0), (0, 1, -1)] if D == 3 and half >= 2 else [])
+                                               + ([(-1, 1, 1), (1, -1, 0), (0, -1, 1), (1, 1, -1)] if D == 3 else []))]
+        ks = [tuple(k) for k in fixed] + [k for k in ks if tuple(k) not in set(map(tuple, fixed))]
         for cls in sorted(DISSIPATIVE):
             for k in ks:
                 ctx.check("mode_decay", dict(cls=cls, D=D, N=N, L=3.0, dt=0.05, k=list(k), seed=ctx.seed))
+        for k in ks:
+            ctx.check("mode_decay", dict(cls="HyperDiffusion", D=D, N=N, L=3.0, dt=0.05, k=list(k), seed=ctx.seed, flag=True))
         for L in ((2 * np.pi, 1e5) if not deep else (1.0, 2 * np.pi, 2e4, 1e5)):
             ctx.check("wave_energy", dict(D=D, N=N, L=L, dt=0.3, seed=ctx.seed, steps=3))
